@@ -4,6 +4,7 @@ traversal are pairwise incomparable (neither is a prefix of the other — in
 particular pairwise distinct), for every well-formed type.
 -/
 import Martian.PostProcess
+import Martian.PostProcessDefs
 import Proofs.PostProcess
 import Proofs.PostProcessNames
 import Proofs.PostProcessLeaves
@@ -20,9 +21,6 @@ theorem isPrefix_iff {p q : Path} : isPrefix p q = true ↔ ∃ s, q = p ++ s :=
     | some s => exact ⟨s, stripPrefix_some hq⟩
   · rintro ⟨s, rfl⟩
     exact isPrefix_append p s
-
-/-- `d` lies at or below `b` -/
-def Under (b d : Path) : Prop := ∃ suf, d = b ++ suf
 
 theorem Under.trans_append {b c d : Path} (h : Under (b ++ c) d) : Under b d := by
   obtain ⟨s, rfl⟩ := h
@@ -42,9 +40,6 @@ theorem under_outs_of_dest {b a : Path} {n m : String} (h : Under (b ++ [n]) (a 
     have hs' : a ++ [m] = (b ++ [n] ++ s') ++ [z] := by rw [hs]; simp
     have := (List.append_inj' hs' rfl).1
     exact ⟨[n] ++ s', by rw [this]; simp⟩
-
-/-- neither path is a prefix of the other -/
-def Incomp (d1 d2 : Path) : Prop := isPrefix d1 d2 = false ∧ isPrefix d2 d1 = false
 
 theorem Incomp.symm {a b : Path} (h : Incomp a b) : Incomp b a := ⟨h.2, h.1⟩
 
@@ -69,9 +64,6 @@ theorem not_isPrefix_of_siblings {b : Path} {n1 n2 : String} {d1 d2 : Path} (hn 
 theorem incomp_of_siblings {b : Path} {n1 n2 : String} {d1 d2 : Path} (hn : n1 ≠ n2)
     (h1 : Under (b ++ [n1]) d1) (h2 : Under (b ++ [n2]) d2) : Incomp d1 d2 :=
   ⟨not_isPrefix_of_siblings hn h1 h2, not_isPrefix_of_siblings (Ne.symm hn) h2 h1⟩
-
-/-- the relation between two leaves: incomparable destinations -/
-def LeafIncomp (l1 l2 : Leaf) : Prop := Incomp l1.dest l2.dest
 
 /-! ## flat lists of parts -/
 
@@ -263,24 +255,6 @@ theorem member_names_distinct {ms : List (String × String × Ty)} (hnd : (membe
 
 /-! ## well-formed types (what the compiler guarantees) -/
 
-mutual
-/-- every struct in the type passed the compiler's duplicate checks: distinct
-member ids and (`noDupNames`) distinct output file names -/
-def wfTy : Ty → Bool
-  | .scalar => true
-  | .file _ => true
-  | .arr e _ => wfTy e
-  | .tmap e => wfTy e
-  | .struct ms => noDupNames ms [] && decide ((ms.map (·.1)).Nodup) && wfMs ms
-def wfMs : List (String × String × Ty) → Bool
-  | [] => true
-  | (_, _, t) :: ms => wfTy t && wfMs ms
-end
-
-/-- the out params of the top-level callable, as a member list -/
-def wfParams (params : List (String × String × Ty)) : Bool :=
-  noDupNames params [] && decide ((params.map (·.1)).Nodup) && wfMs params
-
 theorem wfMs_mem {ms : List (String × String × Ty)} (h : wfMs ms = true) {id on : String} {t : Ty}
     (hm : (id, on, t) ∈ ms) : wfTy t = true := by
   induction ms with
@@ -301,12 +275,6 @@ theorem leaves_nofile (t : Ty) (id on : String) (v : J) (o : Path) (h : hasFile 
   | arr e k => simp [hasFile] at h; simp [leavesOf, h]
   | tmap e => simp [hasFile] at h; simp [leavesOf, h]
   | struct ms => simp [hasFile] at h; simp [leavesOf, h]
-
-/-- all leaves of the member lie below the member's own directory/file name,
-and their destinations are pairwise incomparable -/
-def GoodFn (ty : Ty) (g : LeafFn) : Prop :=
-  ∀ id on v outs, (∀ l ∈ g id on v outs, Under (outs ++ [outFilename ty id on]) l.dest) ∧
-    (g id on v outs).Pairwise LeafIncomp
 
 theorem pad_names_ne (e : Ty) (n i j : Nat) (hi : i < n) (hj : j < n) (hne : i ≠ j) :
     outFilename e (pad (width n) i) "" ≠ outFilename e (pad (width n) j) "" :=
@@ -384,12 +352,6 @@ theorem mapLeaves_good (e : Ty) (g : LeafFn) (hg : GoodFn e g) (v : J) (o : Path
   | lit s => simp [mapLeaves]
   | str s => simp [mapLeaves]
   | arr xs => simp [mapLeaves]
-
-/-- what is known about the leaves of the member with id `k` -/
-def GoodMs (ms : List (String × String × Ty)) (gs : MemberLeaves) : Prop :=
-  ∀ k v o, (memberLeaves gs k v o).Pairwise LeafIncomp ∧
-    ∀ l ∈ memberLeaves gs k v o, ∃ on t, (k, on, t) ∈ ms ∧ hasFile t = true ∧
-      Under (o ++ [outFilename t k on]) l.dest
 
 theorem structLeaves_good (ms : List (String × String × Ty)) (gs : MemberLeaves) (hg : GoodMs ms gs)
     (hkeys : gs.map Prod.fst = ms.map (·.1)) (hids : (ms.map (·.1)).Nodup)
